@@ -25,7 +25,8 @@ RULE = ("programs of 3-11 nodes with 1-4 effects of every kind (Effect::new, Ren
         "of the effects form a static TREE (an effect's owner is created under the owner of an earlier effect) and pause / resume / "
         "dispose are addressed to any owner of the tree in any order (pause an inner owner, resume an ancestor, ...). A selector "
         "stream builds 1-2 Selector::new / new_with_fn (comparators ==, same bucket of ten, value >= key) over signals / memos / "
-        "another selector, with 1-4 keys each, read through selected(key) by effects of every kind and by memos. For small programs (2-3 effects, 2 writes) every schedule of up to 2 polls between "
+        "another selector, with 1-4 keys each, read through selected(key) by effects of every kind and by memos. A 'nested' stream "
+        "(oracle only) has effects whose bodies create effects (depth up to 2) and memos at run time. For small programs (2-3 effects, 2 writes) every schedule of up to 2 polls between "
         "the operations is enumerated; beyond that schedules are seeded-random. Every case runs under a 4 s watchdog. "
         "Non-trivial = some effect ran at least twice; distinct = distinct case hash.")
 TRUSTED = [
@@ -52,7 +53,11 @@ TRUSTED = [
 ]
 ASSUMPTIONS = [
     "one poll of a task is atomic (single thread)",
-    "static graphs: effects do not create nested effects or memos; the owner tree is static (owners are created with "
+    "the Coq model has static graphs: effects creating nested effects / memos at run time ('nested' family: templates "
+    "instantiated by the body that evaluates (9 k), under the current owner, re-created by every run of their creator, disposed "
+    "by the creator's next run or with its owner; RenderEffect handles are kept in the creator's value, as user code does) are "
+    "checked by the watchdog and the Python oracle only (idle convergence, no run after disposal / while paused, glitch-free "
+    "reads); in the model the owner tree is static (owners are created with "
     "the program, before the history starts, so Owner::child's inheritance of the paused flag is not exercised)",
     "a selector's value is state written by its internal effect (an effect-mediated signal): selected(key) read during a "
     "run is checked against f(key, the value the selector holds), and the selector's internal effect against its source",
@@ -67,7 +72,7 @@ LEVEL_TEXT = ("Coq proofs over an executable model of EffectInner, the notificat
               "compared, small programs exhaustively over schedules) and an independent idle-consistency recomputation in Python.")
 LEVEL_NOTE = ("see Properties_C02.v: idle convergence is proved for every program outside the class self_feeding (effects and watch "
               "handlers may write signals, but not into their own static cone), for every static owner tree (pause / resume reach "
-              "every descendant: C02_pause_reaches_descendants); findings F-C02-a/b/c repaired, F-C02-d (that class; classify() here "
+              "every descendant: C02_pause_reaches_descendants); findings F-C02-a/b/c/e/f repaired, F-C02-d (that class; classify() here "
               "uses the same predicate on the case's own effects) open; selectors COMPARED-NOT-PROVED for idle convergence (their "
               "model is a program transformation that falls into the excluded class); ImmediateEffect oracle-only.")
 TECHNIQUE = "Coq proof (invariant over all schedules) + differential correspondence of the extracted model with the Rust code"
@@ -202,6 +207,13 @@ def generate(rng, tier):
         if rng.random() < 0.8:
             ops.append([4])
         yield dict(case=C.norm([prog, ops]), kind="selector", compare=True)
+    # effects creating nested effects (and memos) at run time, re-created by every run of their creator (not
+    # modelled: watchdog + oracle only)
+    for i in range(3000 if quick else 30000):
+        prog = X.gen_dynamic_program(rng, rng.choice([1, 1, 2]), with_effects=True)
+        ops = X.gen_ops(rng, prog, rng.randint(6, 30), w=(0.35, 0.04, 0.12, 0.2, 0.2, 0.09))
+        ops.append([4])
+        yield dict(case=C.norm([prog, ops]), kind="nested", compare=False)
     for i in range(30 if quick else 300):
         yield dict(case=C.norm(selfwrite(rng)), kind="selfwrite", compare=True)
     # ImmediateEffect: not modelled; watchdog + oracle only
@@ -229,14 +241,17 @@ def nontrivial(item, model):
     prog = item["case"][0]
     runs = {}
     for e in model:
-        if e[0] == 1 and prog[e[1]][0] == X.EFF:
+        if e[0] == 1 and e[1] < len(prog) and prog[e[1]][0] == X.EFF:
             runs[e[1]] = runs.get(e[1], 0) + 1
     return any(n >= 2 for n in runs.values())
 
 
 def coverage_extra(results):
     ok = [r for r in results if not isinstance(r["impl"], str)]
-    return dict(effect_runs=sum(sum(1 for e in r["impl"] if e[0] == 1 and r["item"]["case"][0][e[1]][0] == X.EFF) for r in ok),
+    def is_eff(r, i):
+        prog = r["item"]["case"][0]
+        return i >= len(prog) or prog[i][0] == X.EFF      # (instances created at run time: counted as effects)
+    return dict(effect_runs=sum(sum(1 for e in r["impl"] if e[0] == 1 and is_eff(r, e[1])) for r in ok),
                 idle_points=sum(sum(1 for e in r["impl"] if e[0] == 7) for r in ok),
                 polls=sum(sum(1 for e in r["impl"] if e[0] == 8) for r in ok),
                 hangs=sum(1 for r in results if isinstance(r["impl"], str) and r["impl"].startswith("!hang")))
